@@ -37,7 +37,7 @@ prop("C04", module="MW.Props.C04", title="exchange-rate fairness",
      assumptions=["amounts and totals are 128-bit unsigned integers; results are stated for representable results (the checked operation succeeded)"])
 
 prop("C08", module="MW.Props.C08", title="authorization matrix",
-     state_keys=["admin", "config", "state"],
+     state_keys=["admin", "config", "state", "pending_owner", "owner_min_time"],
      weights={"unauthorized": 30, "ownership": 8, "breaker": 4, "resume": 4, "fee_withdraw": 4, "validators": 4,
               "update_config": 4, "deliver": 8, "rewards": 8, "withdraw": 8, "recover": 6},
      assumptions=["a failed call persists nothing and dispatches nothing (CosmWasm runtime atomicity, chain model)"])
